@@ -1,6 +1,7 @@
 -------------------------- MODULE MC_CtiWrap_cases --------------------------
 (* (S->C) the finite case set replayed into the real obj_to_cti: every token  *)
-(* length sequence of <= 4 tokens over {1,5,28,29,30} with every             *)
+(* length sequence of <= 3 tokens over {1,5,28,29,30} and of 4 tokens over    *)
+(* {1,28,30}, with every                                                      *)
 (* (line_len, max_line_len) in {30,31,60,80,100}^2.  Each case carries what   *)
 (* TLC computed with the modelled greedy algorithm: `ref`, the <<length,     *)
 (* words>> of every line.  The replay reports how many real layouts equal it  *)
@@ -9,7 +10,7 @@
 EXTENDS CtiWrap, Json, IOUtils
 CW == {30, 31, 60, 80, 100}
 CL == {1, 5, 28, 29, 30}
-LenSeqs == UNION {[1..n -> CL] : n \in 0..4}
+LenSeqs == UNION {[1..n -> CL] : n \in 0..3} \cup [1..4 -> {1, 28, 30}]
 Ref(lens, l, m) == LET g == GreedyLayout(lens, l, m) IN [i \in 1..Len(g) |-> <<g[i].len, g[i].nw>>]
 Cases == {[lens |-> s, ll |-> l, ml |-> m, ref |-> Ref(s, l, m)] : s \in LenSeqs, l \in CW, m \in CW}
 ASSUME JsonSerialize(IOEnv.OUT_FILE, SXL!SetToSeq(Cases))
